@@ -610,7 +610,7 @@ def run_family(res, prop, prop_mod, cases, dcases=None, spec_on_streams=True, ru
     bad_total = []
     for i, (c, o) in enumerate(zip(cases, routs)):
         want = "cancel" if False else None
-        if o["why"] in ("panic", "stall") or o["why"].startswith("other") or o["why"] == "nil":
+        if o["why"] in ("panic", "stall", "flood") or o["why"].startswith("other") or o["why"] == "nil":
             bad_total.append(i)
     for i, (d, o) in enumerate(zip(dcases, douts)):
         if o.get("panic") and len(d["b"]) > 0:
